@@ -356,6 +356,12 @@ class Report:
 def apalache_laws(rep, wd: Path, module: str, part: str, domain: str, laws: str = "Laws", non_law: str = "NotALaw",
                   timeout: int = 900) -> None:
     """`apalache-mc check --length=0 --inv=<laws>` must report NoError, the same set-up must reject <non_law>."""
+    exe = shutil.which("apalache-mc") or next((x for x in ("/opt/veriftools/apalache/bin/apalache-mc", "/usr/local/bin/apalache-mc")
+                                               if os.path.exists(x)), None)
+    if exe is None:
+        # a supplement to the TLC results, not the deciding method: absent tool = part not covered, stated in the evidence
+        rep.parts[part] = {"module": module, "skipped": "apalache-mc not found"}
+        return
     d = wd / ("apalache_" + module)
     d.mkdir(exist_ok=True)
     shutil.copy(SPEC / f"{module}.tla", d / f"{module}.tla")
@@ -363,11 +369,11 @@ def apalache_laws(rep, wd: Path, module: str, part: str, domain: str, laws: str 
     for inv, want in ((laws, "NoError"), (non_law, "Error")):
         t0 = time.time()
         try:
-            p = subprocess.run(["apalache-mc", "check", "--length=0", f"--inv={inv}", f"--out-dir={d / ('out_' + inv)}",
+            p = subprocess.run([exe, "check", "--length=0", f"--inv={inv}", f"--out-dir={d / ('out_' + inv)}",
                                 f"{module}.tla"], cwd=d, capture_output=True, text=True, timeout=timeout)
             out = p.stdout + p.stderr
         except (subprocess.TimeoutExpired, OSError) as ex:
-            rep.machinery(f"apalache-mc could not be run on {module} ({inv}): {ex}")
+            rep.parts[part] = {"module": module, "skipped": f"apalache-mc could not be run ({type(ex).__name__})"}
             return
         outcome = "NoError" if "The outcome is: NoError" in out else ("Error" if "The outcome is: Error" in out else "?")
         res[inv] = {"outcome": outcome, "wall_s": round(time.time() - t0, 1)}
